@@ -123,11 +123,21 @@ func (fs *localFileSystem) MkdirPanicIfExist(path string, permission Mode) {
 }
 
 func (fs *localFileSystem) mkdir(path string, permission Mode) {
+	// MkdirAll may create several levels: the entry of every directory it creates has to be
+	// made durable in its parent, not only the entry of the leaf.
+	created := []string{filepath.Clean(path)}
+	for p := filepath.Dir(created[0]); p != created[len(created)-1]; p = filepath.Dir(p) {
+		if _, err := os.Stat(p); err == nil || !os.IsNotExist(err) {
+			break
+		}
+		created = append(created, p)
+	}
 	if err := os.MkdirAll(path, os.FileMode(permission)); err != nil {
 		fs.logger.Panic().Str("path", path).Err(err).Msg("failed to create directory")
 	}
-	parentDirPath := filepath.Dir(path)
-	fs.SyncPath(parentDirPath)
+	for i := len(created) - 1; i >= 0; i-- {
+		fs.SyncPath(filepath.Dir(created[i]))
+	}
 }
 
 func (fs *localFileSystem) pathExist(path string) bool {
